@@ -241,6 +241,8 @@ fn check_texts(case: &Value, obs: &mut Obs) -> Result<(), String> {
     let mut channels = vec![("stdin without argument", Channel::StdinNoArg(data_text.to_string())), ("stdin with -", Channel::StdinDash(data_text.to_string()))];
     if !is_option_syntax(data_text) && !data_text.contains('\0') && data_text != "-" {
         channels.insert(0, ("argument", Channel::Arg(data_text.to_string())));
+        // when the data is an argument, whatever waits on stdin is irrelevant
+        channels.insert(1, ("argument, with an unrelated valid JSON text on stdin", Channel::ArgWithDecoyStdin(data_text.to_string(), "{\"decoy\":[\"STDIN\",7]}".to_string())));
     } else {
         obs.skip("U12");
     }
